@@ -13,7 +13,7 @@ from __future__ import annotations
 from fractions import Fraction as F
 
 from . import term as T
-from .interp import AnalysisError, BoundModel, Interp, Opaque, RaiseSignal, SVar
+from .interp import AnalysisError, BoundModel, ExtRef, Interp, Opaque, RaiseSignal, SVar
 from .scipp_model import Model, _bind, norm_dtype
 from .term import Rat
 from .units import DIMENSIONLESS, NO_UNIT, Unit, parse_unit
@@ -28,6 +28,21 @@ def items_of(v):
 
 def rows_of(v):
     return v.members.get('rows') if isinstance(v, SVar) else None
+
+
+
+def real_type(v):
+    """dtype arguments spelled as Python / numpy types (float, np.int64, ...)"""
+    import builtins
+
+    import numpy as np
+    if isinstance(v, ExtRef):
+        mod, _, name = v.path.rpartition('.')
+        if mod == 'builtins' and name in ('float', 'int', 'bool', 'complex'):
+            return getattr(builtins, name)
+        if mod == 'numpy' and isinstance(getattr(np, name, None), type):
+            return getattr(np, name)
+    return v
 
 
 class WitnessModel(Model):
@@ -704,6 +719,13 @@ class WitnessModel(Model):
 
     def sc_array(self, interp, args, kwargs, node):
         vals = kwargs.get('values')
+        if type(vals).__module__ == 'numpy' and getattr(vals, 'ndim', None) == 1 and vals.dtype.kind in 'biuf':
+            # a concrete numpy array (folded index arithmetic): its elements are plain numbers
+            kwargs = {**kwargs, 'values': vals.tolist()}
+            if kwargs.get('dtype') is None:
+                kwargs['dtype'] = {'b': 'bool', 'i': 'int64', 'u': 'int64', 'f': 'float64'}[vals.dtype.kind] if vals.dtype.itemsize == 8 or vals.dtype.kind == 'b' \
+                    else str(vals.dtype)
+            vals = kwargs['values']
         if isinstance(vals, SVar) and items_of(vals) is not None:
             dims = kwargs.get('dims')
             dim = dims[0] if isinstance(dims, list | tuple) and dims else vals.members['dims'][0]
@@ -819,7 +841,7 @@ class WitnessModel(Model):
             conc = [self._concrete_flags(a) if isinstance(a, SVar) else a for a in args]
             if all(c is not None and not isinstance(c, SVar | Opaque) for c in conc) and not any(isinstance(v, SVar | Opaque) for v in kwargs.values()) and args:
                 try:
-                    return getattr(np, fname)(*conc, **kwargs)
+                    return getattr(np, fname)(*conc, **{k: real_type(v) for k, v in kwargs.items()})
                 except (ValueError, TypeError) as ex:
                     raise RaiseSignal(type(ex).__name__, node, interp.where(node), (str(ex),)) from None
         mod, _, name = path.rpartition('.')
